@@ -43,7 +43,7 @@ def check(ctx):
         stats["different"] += len(diff)
         if not diff:
             return
-        sample = diff[:: max(1, len(diff) // 600)][:600]
+        sample = diff if len(diff) <= 20000 else diff[:: len(diff) // 20000 + 1]   # every differing case is examined (a stride only beyond 20000)
         d0 = details(ctx, dumps, sample, None, "det-r%d-jit" % ri)
         d1 = details(ctx, dumps, sample, ENV, "det-r%d-vm" % ri)
         seen = set()
